@@ -5,7 +5,7 @@ import sqlcommon as sc
 from sexpr import enc, hexs
 from odata_query import ast
 
-PROP_MODS = ["ODataVerif.Tie.Sql", "ODataVerif.Tie.SqlTemplates", "ODataVerif.Tie.ParserTables", "ODataVerif.Props.C09", "ODataVerif.Props.C09Parse", "ODataVerif.Props.C06Image"]
+PROP_MODS = ["ODataVerif.Props.Accepted", "ODataVerif.Tie.Sql", "ODataVerif.Tie.SqlTemplates", "ODataVerif.Tie.ParserTables", "ODataVerif.Props.C09", "ODataVerif.Props.C09Parse", "ODataVerif.Props.C06Image"]
 
 def cases_for(ctx):
     rng = ctx.rng
@@ -41,6 +41,12 @@ def cases_for(ctx):
               sc.call("contains", L3, L1), sc.call("contains", L1, L3), sc.call("startswith", L3, L1), sc.call("endswith", L3, L2), sc.call("hassubset", L3, L2), sc.call("hassubset", L2, L3),
               sc.call("hassubsequence", L3, L2), ast.Compare(ast.Eq(), sc.call("indexof", L3, L1), ast.Integer("0")),
               ast.Compare(ast.Eq(), sc.call("substring", sc.call("concat", L3, L1), ast.Integer("2"), ast.Integer("1")), L1)]
+    # long in-lists (499 / 500 / 501 / 1 001 / 1 700 options) alone and as an operand of and / or / not / a comparison with true: one IN node in its place
+    for n in (499, 500, 501, 1001, 1700):
+        big = ast.Compare(ast.In(), I("x1"), ast.List([ast.Integer(str(k)) for k in range(n)]))
+        sbig = ast.Compare(ast.In(), I("s1"), ast.List([sc.S("v%d" % k) for k in range(n)]))
+        nodes += [big, ast.BoolOp(ast.And(), big, ast.Compare(ast.Eq(), I("y1"), ast.Integer("1"))), ast.BoolOp(ast.And(), ast.Compare(ast.Eq(), I("y1"), ast.Integer("1")), big),
+                  ast.UnaryOp(ast.Not(), big), ast.BoolOp(ast.Or(), ast.UnaryOp(ast.Not(), sbig), ast.BoolOp(ast.And(), big, sbig)), ast.Compare(ast.Eq(), big, ast.Boolean("false"))]
     # field spellings: athena sanitiser, keywords as names, long names
     for nm in ["Name", "eac", "SELECT", "a1_b", "é", "naïve_Col", "x" * 40, "İd", "K", "_u", "ns9"]:
         nodes.append(ast.Compare(ast.Eq(), ast.Identifier(nm), ast.Integer("1")))
